@@ -375,6 +375,26 @@ func Features() []Feature {
 			return "Root"
 		}})
 	}
+	// variants without fields (`message Ping {}`): the discriminator alone carries the information
+	for _, fl := range []bool{false, true} {
+		fl, sh := fl, next()
+		id := "oneof_nested"
+		if fl {
+			id = "oneof_flatten"
+		}
+		add(Feature{ID: id + "/message/fieldless-variants", Ann: id, Kind: "message", Card: "fieldless-variants", Shape: sh, Build: func(b *B) string {
+			b.Msg("Text", spec.F("body", 1, spec.String))
+			b.Msg("Ping")
+			b.Msg("Ack")
+			t := spec.FM("text_part", 2, b.FQ("Text")).In(1)
+			pg := spec.FM("ping", 3, b.FQ("Ping")).In(1)
+			ak := spec.FM("ack", 4, b.FQ("Ack")).In(1)
+			ak.Ann.OneofValue = spec.S("acknowledged")
+			m := b.Msg("Root", spec.F("id", 1, spec.String), t, pg, ak, spec.F(b.N.Field(sh, 1), 5, spec.Int32))
+			m.Oneofs = []*spec.Oneof{{Name: "payload", HasConfig: true, Discriminator: "type", Flatten: fl}}
+			return "Root"
+		}})
+	}
 	add(Feature{ID: "oneof_nested/scalar/default-values", Ann: "oneof_nested", Kind: "scalar", Card: "default-values", Shape: "word", Build: func(b *B) string {
 		m := b.Msg("Root", spec.F("id", 1, spec.String), spec.F("text_val", 2, spec.String).In(1), spec.F("num_val", 3, spec.Int32).In(1), spec.F("big_val", 4, spec.Int64).In(1))
 		m.Oneofs = []*spec.Oneof{{Name: "value", HasConfig: true, Discriminator: "kind"}}
